@@ -1,6 +1,7 @@
 // C07: the named-core pipeline  partitionNamedTerms -> minimize -> Minimize::perform -> performNaive  (all real) against a
 // symbolic monotone unsat-oracle over ALL current assertions (named and unnamed).
 #include "verif.h"
+#include <vector>
 #include "unsatcores/UnsatCoreBuilder.h"
 #include "api/MainSolver.h"
 using namespace opensmt;
@@ -33,6 +34,15 @@ extern "C" bool stub_true(SMTConfig const *) { return true; }
 extern "C" bool stub_false(SMTConfig const *) { return false; }
 extern "C" vec<PTRef> stub_currentAssertions(MainSolver const *) {
     vec<PTRef> v; for (int i = 0; i < NA; i++) v.push(PTRef{10u + (uint32_t)i}); return v;
+}
+// what the partition manager knows: every formula EVER asserted, i.e. the current assertions plus one that has been popped (term 99).
+// The current code does not ask for it; a change that takes the background from there instead of the current assertions is caught
+// by "internal solver used with ... current assertions only"
+extern "C" std::vector<PTRef> stub_allPartitionsEver(void const *) {
+    std::vector<PTRef> v(NA + 1);
+    for (int i = 0; i < NA; i++) v[i] = PTRef{10u + (uint32_t)i};
+    v[NA] = PTRef{99u};
+    return v;
 }
 #define V1 (void *)&stub_check,
 #define V4 V1 V1 V1 V1
